@@ -71,6 +71,8 @@ func init() {
 }
 
 func runC09(p *chk.Prog, r *chk.Report) {
+	// in frr-k8s mode what the sessions were last set to is what reaches the cluster (K8S-DELIVER, shared with C19)
+	c19K8s(p, r)
 	c09PoolCurrent(p, r)
 	// a configuration or node change is applied by a pass over every Service (PASS-COMPLETE, shared with C06)
 	passCompleteRule(p, r)
